@@ -196,6 +196,17 @@ func groupPreservingPerm(rt *rapid.T, cfg *kit.Config) []int {
 			last[k] = i
 		}
 	}
+	// a registration that registers again what another one registered and removed stays behind it
+	for i := range cfg.Regs {
+		for _, before := range cfg.Regs[i].After {
+			for j := range cfg.Regs {
+				if cfg.Regs[j].ID == before {
+					after[j] = append(after[j], i)
+					indeg[i]++
+				}
+			}
+		}
+	}
 	var avail, out []int
 	for i := 0; i < n; i++ {
 		if indeg[i] == 0 {
@@ -655,6 +666,9 @@ func TestC08Build(t *testing.T) {
 		cfg := kit.GenConfig(rt, gopts)
 		pct := rapid.SampledFrom([]int{0, 0, 10, 25, 40}).Draw(rt, "droppct")
 		dropped := kit.DropRegs(rt, cfg, pct)
+		if rapid.IntRange(0, 5).Draw(rt, "twins") == 0 && kit.PlantTwins(rt, cfg) {
+			dropped = append(dropped, -2) // (marker in the report: twin parameter-object types were added)
+		}
 		// a name-tagged field of a reserved type can never be satisfied (nothing can be registered
 		// for it, and the built-in itself is only served without a name): a missing dependency
 		if rapid.IntRange(0, 5).Draw(rt, "namedBuiltin") == 0 {
